@@ -27,7 +27,7 @@ def run(ctx):
     CI, pc = impl.CI, impl.pc
     rng = ctx.rng
     cid = 0
-    for it in range(ctx.budget(90, 900)):
+    for it in range(ctx.budget(250, 3000)):
         N = rng.choice([1, 2, 3, 3, 4, 5, 6])
         length = rng.choice([1, 2, 3, 5, 8, 12, 20, 30])
         prog = CU.rand_program(rng, N, length)
@@ -103,7 +103,7 @@ def run(ctx):
                          dict(rep, Ps=Ps, got=got, want=want))
             if a is not None:
                 ans = ctx.drv.ask('circ %s fwd L 0 %s _ - none' % (a, H.erows_ops(Ps)))
-                ctx.count('corr:forward')
+                ctx.count('corr:forward'); ctx.traces += 1
                 mv = H.drows_ops(ans.split(' ')[2]) if ans.startswith('ok ') else ans
                 if mv != got:
                     ctx.mismatch('forward', 'circ fwd L (program of %d gates, %s)' % (length, conf), str(mv)[:500], str(got)[:500], dict(rep=rep))
